@@ -1041,6 +1041,21 @@ fn blame_hang(rep: &RunReport, live: Live, out: &mut Vec<Violation>, verdict: &m
                 props_found += 1;
             }
         }
+        // 1b. the suspension is held by a caller parked inside its own sync (it drained the queue into the hold job): once every
+        // resumer of the object has been used or dropped, that caller must be unparked and go on
+        {
+            let mut sus = world.hrec.iter().filter(|h| h.kind == Kind::Suspend && h.resolved_at.is_some() && h.op.map_or(false, |s| ops[s as usize].obj == Some(o))).peekable();
+            let any = sus.peek().is_some();
+            let all_resumed = sus.all(|h| h.resumed_at.is_some());
+            let other_wait = ops.iter().any(|x| x.obj == Some(o) && x.start.is_some() && x.fin.is_none() && x.kind != Kind::Suspend && x.waiting_gate.is_some());
+            let piped = world.streams.iter().any(|st| st.obj == Some(o));
+            if any && all_resumed && qstate == Some(4) && !other_wait && !piped {
+                for r in ops.iter().filter(|r| r.obj == Some(o) && r.kind == Kind::Sync && r.outcome == CallOutcome::InCall && r.start.is_none() && matches!(task_state(r.thread), Some(TState::Blocked(Wait::Park)))) {
+                    v(out, "C13", "sync_holding_the_suspension_left_parked_after_resume", &[r.id], r.inv.unwrap_or(0), describe(r));
+                    props_found += 1;
+                }
+            }
+        }
         if slot.drop_inv.is_some() && slot.drop_ret.is_none() {
             if matches!(task_state(slot.dropper), Some(TState::Blocked(Wait::Condvar(_)))) && matches!(qstate, Some(0) | Some(1)) {
                 v(out, "C05", "drop_asleep_on_claimable_queue", &[], slot.drop_inv.unwrap_or(0), format!("dropping object {} sleeps although its queue (state/len/waiters {:?}) can be claimed: {}", o, peek, where_));
